@@ -187,7 +187,8 @@ public:
             page_allocator_type page_allocator(allocator);
             micro_queue_pop_finalizer<self_type, value_type, page_allocator_type> finalizer(*this, page_allocator,
                 k + queue_rep_type::n_queue, index == items_per_page - 1 ? p : nullptr );
-            if (p->mask.load(std::memory_order_relaxed) & (std::uintptr_t(1) << index)) {
+            // After a failed page allocation the lane ends in the invalid page marker: such a ticket holds no item
+            if (is_valid_page(p) && (p->mask.load(std::memory_order_relaxed) & (std::uintptr_t(1) << index))) {
                 success = true;
                 assign_and_destroy_item(dst, *p, index);
             } else {
@@ -265,7 +266,6 @@ public:
         padded_page* invalid_page = reinterpret_cast<padded_page*>(std::uintptr_t(1));
         {
             spin_mutex::scoped_lock lock( page_mutex );
-            tail_counter.store(k + queue_rep_type::n_queue + 1, std::memory_order_relaxed);
             padded_page* q = tail_page.load(std::memory_order_relaxed);
             if (is_valid_page(q)) {
                 q->next = invalid_page;
@@ -273,6 +273,8 @@ public:
                 head_page.store(invalid_page, std::memory_order_relaxed);
             }
             tail_page.store(invalid_page, std::memory_order_relaxed);
+            // Publish the failure last: a consumer that sees the counter move reads head_page right away
+            tail_counter.store(k + queue_rep_type::n_queue + 1, std::memory_order_release);
         }
     }
 
